@@ -38,7 +38,7 @@ pub fn run(ctx: &Ctx) -> i32 {
     let pols = policies(gmax, nmax);
     let key = SymmetricKey::from_data([7u8; 32]);
     let origs = originals();
-    let acc = pols.par_iter().enumerate().map(|(pi, (gt, groups))| {
+    let acc = pols.par_iter().enumerate().with_max_len(1).map(|(pi, (gt, groups))| {
         let mut acc = Acc::new();
         acc.inc("policies");
         // SSKR with a 1-of-n group and SSKR validity rules: the sskr crate refuses some specs (e.g. threshold 1 with n > 1); a refused spec is not a violation
